@@ -150,7 +150,15 @@ func pbOne(c pbCase) {
 		var err error
 		lib.Eval()
 		if p := lib.Try("partiallyblindrsa.Verifier.FixedBlind", input, func() {
-			s.blinded, s.state, err = verifier.FixedBlind(msg, info, salt, rb.Bytes(), rInv.Bytes())
+			// every argument in a buffer of its own that is overwritten as soon
+			// as the call returns
+			ins := [][]byte{lib.Clone(msg), lib.Clone(info), lib.Clone(salt), rb.Bytes(), rInv.Bytes()}
+			s.blinded, s.state, err = verifier.FixedBlind(ins[0], ins[1], ins[2], ins[3], ins[4])
+			for _, b := range ins {
+				for i := range b {
+					b[i] ^= 0xA5
+				}
+			}
 		}); p != nil || err != nil {
 			pbViol(c, "blind-fails", "partiallyblindrsa.Verifier.FixedBlind", "err", err, "panic", fmt.Sprint(p != nil), "msg", msg, "metadata", info)
 			return
